@@ -569,6 +569,45 @@ Proof.
   exact (proj2 (proj2 (history_answers_meet_spec Z.leb 0%Z C zgood zle_preorder HC ops b H G))).
 Qed.
 
+(* every arm of the dispatcher on a reused buffer (the Generic arm and the arms without a kernel
+   of their own run the default scans over matrix().iter(), the SSE2 / AVX2 kernels walk rows
+   0..rows()): the same answers as on the logical rows, hence the specification -- Threshold has
+   only the default implementation, on every arm *)
+Theorem C07_history_dispatch_f32 :
+  forall (T : Type) (le lt : T -> T -> bool) (vmax smax : T -> T -> T) (ninf dflt : T) (C : nat)
+         (ops : list (@bop T)) (b : @buffer T),
+  b_run C (vec_resize dflt C) b_empty ops = Ok b ->
+  forall (a : arm) (mi : N) (t : T),
+  buf_dispatch_argmax_f32 le lt ninf a mi b = dispatch_argmax_f32 le lt ninf a mi (b_logical b) /\
+  buf_dispatch_max_f32 le vmax smax a b = dispatch_max_f32 le vmax smax a (b_logical b) /\
+  buf_dispatch_threshold le a b t = dispatch_threshold le a (b_logical b) t.
+Proof. intros T le lt vmax smax ninf dflt C. exact (history_dispatch_f32 le lt vmax smax ninf dflt C). Qed.
+
+Theorem C07_history_dispatch_u8 :
+  forall (C : nat) (ops : list (@bop Z)) (b : @buffer Z),
+  b_run C (vec_resize 0%Z C) b_empty ops = Ok b ->
+  forall (a : arm),
+  buf_dispatch_argmax_u8 a b = dispatch_argmax_u8 a (b_logical b) /\
+  buf_dispatch_max_u8 a b = dispatch_max_u8 a (b_logical b).
+Proof. exact history_dispatch_u8. Qed.
+
+Theorem C07_history_all_arms_f32 :
+  forall (ops : list (@bop F32.t)) (b : @buffer F32.t) (a : arm) (max_index : N) (t : F32.t),
+  b_run 32 (vec_resize F32.zero 32) b_empty ops = Ok b ->
+  all_good f32_good (b_logical b) -> rows_fit32 (b_logical b) -> index_fits32 max_index ->
+  (exists o, buf_dispatch_argmax_f32 F32.le F32.lt F32.ninf a max_index b = Ok o /\ argmax_spec F32.le 32 (b_logical b) o) /\
+  (exists o, buf_dispatch_max_f32 F32.le F32.max_x86 F32.max a b = Ok o /\ max_spec F32.le (b_logical b) o) /\
+  threshold_spec F32.le (b_logical b) t (buf_dispatch_threshold F32.le a b t).
+Proof. exact history_all_arms_f32. Qed.
+
+Theorem C07_history_all_arms_u8 :
+  forall (ops : list (@bop Z)) (b : @buffer Z) (a : arm) (t : Z),
+  b_run 32 (vec_resize 0%Z 32) b_empty ops = Ok b -> u8_matrix (b_logical b) ->
+  (rows_fit16 (b_logical b) -> exists o, buf_dispatch_argmax_u8 a b = Ok o /\ argmax_spec Z.leb 32 (b_logical b) o) /\
+  (exists o, buf_dispatch_max_u8 a b = Ok o /\ max_spec Z.leb (b_logical b) o) /\
+  threshold_spec Z.leb (b_logical b) t (buf_dispatch_threshold Z.leb a b t).
+Proof. exact history_all_arms_u8. Qed.
+
 (* shrinking drops the last rows for good: growing again exposes default rows, never what the
    buffer held before (resize to n <= rows, then to k >= n) *)
 Theorem C07_history_shrink_then_grow :
